@@ -7,7 +7,7 @@ RULE = ("stereo-free corpus reactions (expected_reaction / reaction columns) and
         "CC(C)O, NCCO, OCCN, ...): every reaction is normalised (i) as written, (ii) in ALL permutations of its molecules when a side "
         "has <= 4 molecules (random permutations otherwise), (iii) with every molecule re-written as a random equivalent SMILES, with random atom maps and "
         "with every hydrogen written as an atom; normal forms must coincide, be idempotent, and variants must have similarity exactly 1; "
-        "wc_similarity is checked for symmetry and range on perturbed pairs x {pathway, ecfp, ecfp_inv}.  Correspondence: "
+        "wc_similarity is checked for symmetry and range on perturbed pairs x {pathway, ecfp, ecfp_inv}; the benchmark sub-command is run on result files whose reaction column holds such variants of the expected column (every row must be counted correct).  Correspondence: "
         "normalize_smiles vs Model/Normalize.normalize inside Coq with the leaf table recorded from the implementation (this pins "
         "count_atoms, the character sum, the tie-break and the sort direction); the leaf contract (idempotent, one molecule) is "
         "checked on every token.  Non-trivial: a side with >= 2 molecules of equal atom count (a potential tie); distinct = distinct "
@@ -135,6 +135,51 @@ def run(ctx):
                     s = wc_similarity(base, v, method)
                     if s != 1:
                         ctx.fail("variant-similarity-not-1", {"reaction": base, "variant": v, "method": method}, {"similarity": float(s)})
+    # the benchmark sub-command itself (an observation point of the property): a result file whose `reaction` column holds reordered /
+    # respelled variants of its `expected_reaction` column must be counted correct row by row, for every similarity method
+    bench_pairs = [("CC#N.O>>CC(N)=O", "O.N#CC>>NC(C)=O"), ("C#CCO.CC(=O)Cl>>CC(=O)OCC#C.Cl", "ClC(=O)C.OCC#C>>Cl.C#CCOC(C)=O"),
+                   ("CCO.CC(=O)O>>CCOC(C)=O.O", "OC(C)=O.OCC>>O.O=C(C)OCC"), ("N#N.[H][H].[H][H].[H][H]>>N.N", "[H][H].N#N.[H][H].[H][H]>>N.N")]
+    for s0, e0 in meta:
+        if len(bench_pairs) >= (12 if ctx.quick() else 120):
+            break
+        if s0 != e0 and s0.count(".") >= 1 and "," not in s0 and '"' not in s0:
+            bench_pairs.append((e0, s0))          # expected = the normal form, reaction = the variant as written
+    try:
+        import tempfile, shutil, pandas as pd, logging
+        import synrbl.SynCmd as cmd
+        d = tempfile.mkdtemp(prefix="c17bench_")
+        try:
+            n = len(bench_pairs)
+            for sb in ("rule-based", "mcs-based"):
+                recs = [{"reaction": act, "solved": True, "input_reaction": exp, "issue": "", "rules": "[]", "solved_by": sb, "confidence": 1.0,
+                         "expected_reaction": exp} for exp, act in bench_pairs]
+                st = {"reaction_cnt": n, "balanced_cnt": 0, "rb_applied": n, "rb_solved": n if sb == "rule-based" else 0, "mcs_applied": n, "mcs_solved": n, "confident_cnt": n}
+                for method in ("pathway", "ecfp", "ecfp_inv"):
+                    rf, of = os.path.join(d, "r_%s_%s.csv" % (sb[:2], method)), os.path.join(d, "b_%s_%s.json" % (sb[:2], method))
+                    pd.DataFrame(recs).to_csv(rf)
+                    with open(rf + ".stats", "w") as f:
+                        json.dump(st, f)
+                    args = cmd.setup_argparser().parse_args(["benchmark", rf, "-o", of, "--similarity-method", method])
+                    lv = logging.root.manager.disable; logging.disable(logging.CRITICAL)
+                    try:
+                        args.func(args)
+                    except Exception as e:
+                        ctx.fail("benchmark-miscounts-equal-reactions", {"pairs": bench_pairs, "solved_by": sb, "method": method},
+                                 {"raised": "%s: %s" % (type(e).__name__, str(e)[:200])})
+                        continue
+                    finally:
+                        logging.disable(lv)
+                    with open(of) as f:
+                        out = json.load(f)
+                    ctx.evaluations += 1
+                    ctx.count("benchmark_cli", "%s/%s" % (sb, method))
+                    if out.get("total_correct") != n:
+                        ctx.fail("benchmark-miscounts-equal-reactions", {"pairs": bench_pairs, "solved_by": sb, "method": method},
+                                 {"total_correct": out.get("total_correct"), "rows": n})
+        finally:
+            shutil.rmtree(d, ignore_errors=True)
+    except ImportError as e:
+        ctx.notes.append("benchmark CLI stream skipped: %s" % e)
     # similarity: symmetry and range on perturbed pairs
     pairs = []
     for base in (rx[:60] if ctx.quick() else rx[:700]) + fam[:40]:
